@@ -217,7 +217,7 @@ pub fn truncate(state: &mut State, value: &Value, kwargs: Kwargs) -> Result<Valu
         ));
     }
 
-    if s.chars().count() <= length + leeway {
+    if s.chars().count() <= length.saturating_add(leeway) {
         return Ok(value.clone());
     }
 
